@@ -18,8 +18,9 @@
 //!  (v)   a node's commit index never points beyond its own log.
 //!
 //! Parts: `random` (seeded schedules, config matrix pre-vote x fast-path x geometric tie-break,
-//! 3 and 5 voters) and `directed` (a few hand-ordered hostile schedules, executed through the same
-//! simulator and judged by the same monitor).
+//! 3 and 5 voters), `directed` (a few hand-ordered hostile schedules, executed through the same
+//! simulator and judged by the same monitor) and `mixed` (a directed schedule cut at a random point
+//! and continued by a seeded random walk).
 
 use common::*;
 use h_chain::CaptureTransport;
@@ -1179,7 +1180,13 @@ fn report_outcome(args: &Args, r: &mut Report, part: &str, cfg: Cfg, emb: &[Opti
     match &o.found {
         None => {
             r.eval(hash_combine(o.hash, cfg.bits() << 8 | cfg.nodes as u64), nontrivial);
-            if r.want_sample() && nontrivial && o.counts.get("ev_crash").copied().unwrap_or(0) > 0 {
+            let directed_part = part.starts_with("directed");
+            let wanted = if directed_part {
+                cfg.bits() == 0 && r.samples.len() < 2
+            } else {
+                nontrivial && o.counts.get("ev_crash").copied().unwrap_or(0) > 0 && o.steps < 450
+            };
+            if r.want_sample() && wanted {
                 r.sample(json!({
                     "part": part, "config": cfg.name(), "case_seed": case_seed, "events": o.steps,
                     "leaders_by_term": o.mon.leader_of.iter().map(|(t, n)| format!("t{}=n{}", t, n)).collect::<Vec<_>>(),
@@ -1512,7 +1519,7 @@ fn main() {
         if only != "random" {
             directed(&args, &mut total);
         }
-        let n_cases = if only == "directed" { 0 } else { args.extra_u64("cases", args.by_tier(2_400u64, 160_000u64)) };
+        let n_cases = if only == "directed" { 0 } else { args.extra_u64("cases", args.by_tier(12_000u64, 400_000u64)) };
         let a = &args;
         let rep = par_cases(args.threads, args.seed, n_cases, args.budget(75, 1_080), move |i, s, r| random_case(a, i, s, r));
         total.merge(rep);
@@ -1532,18 +1539,25 @@ fn main() {
             vec![]
         } else {
             vec![
-                ("cases", args.by_tier(300, 5_000)),
-                ("distinct_nontrivial", args.by_tier(100, 2_000)),
-                ("leaders_elected", args.by_tier(500, 10_000)),
-                ("committed_entries", args.by_tier(500, 10_000)),
-                ("commit_agreement_checks", args.by_tier(5_000, 100_000)),
-                ("leader_completeness_checks", args.by_tier(500, 10_000)),
-                ("log_matching_pair_checks", args.by_tier(5_000, 100_000)),
-                ("delivered_AE", args.by_tier(5_000, 100_000)),
-                ("ev_crash", args.by_tier(50, 1_000)),
-                ("ev_restart", args.by_tier(50, 1_000)),
-                ("ev_duplicate", args.by_tier(50, 1_000)),
+                ("cases", args.by_tier(2_000, 20_000)),
+                ("distinct_nontrivial", args.by_tier(1_500, 15_000)),
+                ("mixed_cases", args.by_tier(500, 5_000)),
                 ("directed_scripts_run", 32),
+                ("leaders_elected", args.by_tier(15_000, 150_000)),
+                ("committed_entries", args.by_tier(25_000, 250_000)),
+                ("commit_agreement_checks", args.by_tier(2_000_000, 20_000_000)),
+                ("leader_completeness_checks", args.by_tier(1_000_000, 10_000_000)),
+                ("log_matching_pair_checks", args.by_tier(300_000, 3_000_000)),
+                ("delivered_AE", args.by_tier(100_000, 1_000_000)),
+                ("delivered_RV", args.by_tier(50_000, 500_000)),
+                ("delivered_PV", args.by_tier(15_000, 150_000)),
+                ("proposals_accepted", args.by_tier(30_000, 300_000)),
+                ("ev_crash", args.by_tier(5_000, 50_000)),
+                ("ev_restart", args.by_tier(5_000, 50_000)),
+                ("ev_duplicate", args.by_tier(10_000, 100_000)),
+                ("ev_drop", args.by_tier(20_000, 200_000)),
+                ("msgs_lost_in_partition", args.by_tier(40_000, 400_000)),
+                ("earlier_term_ack_delivered_to_leader", args.by_tier(500, 5_000)),
             ]
         },
         exhaustive: false,
